@@ -39,7 +39,7 @@ def main():
         exec(open(extra).read(), globals())
     man = dict(
         version=1,
-        setup_cmd="make -C /verif -j16 build tools",
+        setup_cmd="make -C /verif -j16 -s build tools",
         hooks=dict(guard="H4_VERIF",
                    enable="checks compile /repo's working tree directly with -DH4_VERIF (Makefile); no source "
                           "hooks exist, interposition is done at link level (-Wl,--wrap) on the harness binary",
